@@ -166,13 +166,15 @@ def run(ctx):
         ok = all(jba.dominates(sw, x) for x in disp) and bool(disp)
         ctx.ob("R1.6", "%s|dispatch-only-through-verdict" % J.key, ok, where=ctx.where(J, sw), detail="start_self / start_deps_unlocked are dominated by the verdict switch")
         ct = arms.get(dv["Clean"])
-        common.not_reach(ctx, "R1.6", "%s|Clean-starts-nothing" % J.key, J, [ct] if ct is not None else [0], disp,
+        common.not_reach_fl(ctx, "R1.6", "%s|Clean-starts-nothing" % J.key, J, [ct] if ct is not None else [0], disp,
                          "the Clean arm reaches neither start_self nor start_deps_unlocked", "a Clean verdict still starts a build")
         dt = arms.get(dv["Dirty"])
-        common.mpt(ctx, "R1.6", "%s|Dirty-builds" % J.key, J, [dt] if dt is not None else [], jba.returns(), jba.calls(re.escape(ss.key)),
+        # (feasible paths: the arms may compute a value - `None` = build here, `Some(targets)` = delegate - that a second
+        # match dispatches on; an arm's value decides which side of that match it takes)
+        common.mpt_fl(ctx, "R1.6", "%s|Dirty-builds" % J.key, J, [dt] if dt is not None else [], jba.returns(), jba.calls(re.escape(ss.key)),
                    "the Dirty arm always goes to start_self", "a Dirty verdict can return without building")
         nt = arms.get(dv["NeedTargets"])
-        common.mpt(ctx, "R1.6", "%s|NeedTargets-builds-or-delegates" % J.key, J, [nt] if nt is not None else [], common.ok_returns(J) + [x for x in jba.returns()], disp,
+        common.mpt_fl(ctx, "R1.6", "%s|NeedTargets-builds-or-delegates" % J.key, J, [nt] if nt is not None else [], common.ok_returns(J) + [x for x in jba.returns()], disp,
                    "the NeedTargets arm goes to start_deps_unlocked or (no_oob) start_self", "an uncertain verdict can return without building or delegating")
 
 
